@@ -21,7 +21,7 @@ LEVEL_NOTE = ("trusts the timeline model in this module, pv/refwire.py, forced r
               "first offer may or may not send a StopOffer (the property only speaks about cyclic ones)")
 RULE = (
     "configurations = initial window {[0,0],[a,a],[a,b]} x draw fraction {0,1/4,1/2,1} x repetitions 0..4 x cyclic period or none x "
-    "TTL {3, infinite} x collection timeout {0, 2^-8} x answer-delay window {[0,0],[c,c],[c,d]}; per configuration the scheduled "
+    "TTL {3, infinite} x collection timeout {0, 2^-8, 2^-4 = the repetition base delay} x answer-delay window {[0,0],[c,c],[c,d]}; per configuration the scheduled "
     "instants T0..Tn of a fault-free run are computed and each disturbance kind is placed at each instant at d-eps / d ahead of "
     "the timer / d behind the timer / d+eps, plus mid-window stops; random scripts with 1-3 instances. distinct = distinct "
     "(configuration, disturbance kind, instant index, placement); non-trivial = the run contains at least one offer and one "
@@ -44,7 +44,7 @@ BD = 2.0 ** -4
 
 def make_config(rng=None, idx=None):
     grid = list(itertools.product(((0.0, 0.0), (0.125, 0.125), (0.125, 0.625)), (0.0, 0.25, 0.5, 1.0), (0, 1, 2, 3, 4),
-                                  (0, 0.5), (3, FOREVER), (0, 2.0 ** -8), ((0.0, 0.0), (2.0 ** -5, 2.0 ** -5), (2.0 ** -5, 3 * 2.0 ** -5))))
+                                  (0, 0.5), (3, FOREVER), (0, 2.0 ** -8, 2.0 ** -4), ((0.0, 0.0), (2.0 ** -5, 2.0 ** -5), (2.0 ** -5, 3 * 2.0 ** -5))))
     g = grid[idx % len(grid)] if idx is not None else rng.choice(grid)
     return dict(window=g[0], f=g[1], reps=g[2], cyclic=g[3], ttl=g[4], ct=g[5], rr=g[6])
 
